@@ -68,6 +68,29 @@ Theorem C13_basic_kinds_any_table : forall e ks, kinds_sweep e ks = true ->
   forall k, In k ks -> bk_const k = true -> In (render e k) predeclared_go_types.
 Proof. exact kinds_any_table. Qed.
 
+(* import activation (gencommon/imports.go: ExtractTypeRef, addNamed, GetActive): after a type
+   reference has been rendered — through pointers, slices, arrays, maps and type arguments to any
+   depth — the import of every foreign package the type mentions is active, whatever the
+   import table was; and rendering all references of a file never deactivates one *)
+Theorem C13_imports_active : forall own r t l p,
+  In p (mentions own t) -> In p (active_paths (snd (extract_ref own r t l))).
+Proof. exact extract_ref_covers. Qed.
+
+Theorem C13_imports_active_all : forall own r ts l p,
+  In p (flat_map (mentions own) ts) ->
+  In p (active_paths (snd (thread (extract_ref own r) ts l))).
+Proof. exact extract_all_covers. Qed.
+
+(* non-vacuity: time.Duration through a renamed import, and a package the file did not import *)
+Example C13_example_imports :
+  extract_ref "farm/p" hand_render
+    (TyMap (TyNamed (Some ("time", "time")) "Duration" [])
+           (TySlice (TyNamed (Some ("reflect", "reflect")) "Kind" [])))
+    [mk_idesc "time" "xtime" false]
+  = ("map[xtime.Duration][]reflect.Kind",
+     [mk_idesc "time" "xtime" true; mk_idesc "reflect" "reflect" true]).
+Proof. vm_compute. reflexivity. Qed.
+
 (* when the model predicts that a genum package builds, nothing required is missing and every
    basic trait kind renders as a predeclared type *)
 Theorem C13_predict_built : forall T ks r c,
@@ -112,6 +135,8 @@ Print Assumptions C13_methods_gsort_partial.
 Print Assumptions C13_methods_any_table.
 Print Assumptions C13_basic_kinds.
 Print Assumptions C13_basic_kinds_any_table.
+Print Assumptions C13_imports_active.
+Print Assumptions C13_imports_active_all.
 Print Assumptions C13_predict_built.
 Print Assumptions C13_methods_genum_orig_refuted.
 Print Assumptions C13_basic_kinds_orig_refuted.
